@@ -24,6 +24,7 @@ import (
 	"strconv"
 	"strings"
 	"sync"
+	"time"
 	"unicode/utf8"
 
 	"github.com/rhysd/actionlint"
@@ -533,6 +534,50 @@ func stringOfItems(it []int) string {
 	return sb.String()
 }
 
+// ---------------------------------------------------------------- watchdog
+//
+// "Validation terminates": every worker publishes the pattern it is validating; a monitor
+// reports the pattern as a hang when a worker stays on it longer than hangLimit (the validators
+// are linear in the pattern: the longest generated pattern takes microseconds).
+
+const hangLimit = 10 * time.Second
+
+type slot struct {
+	mu    sync.Mutex
+	pat   string
+	since time.Time
+	busy  bool
+}
+
+func (s *slot) enter(p string) {
+	s.mu.Lock()
+	s.pat, s.since, s.busy = p, time.Now(), true
+	s.mu.Unlock()
+}
+func (s *slot) leave() { s.mu.Lock(); s.busy = false; s.mu.Unlock() }
+func (s *slot) stuck() (string, bool) {
+	s.mu.Lock()
+	defer s.mu.Unlock()
+	return s.pat, s.busy && time.Since(s.since) > hangLimit
+}
+
+// bounded runs f and reports whether it returned within hangLimit
+func bounded(limit time.Duration, f func()) bool {
+	done := make(chan struct{})
+	go func() { f(); close(done) }()
+	select {
+	case <-done:
+		return true
+	case <-time.After(limit):
+		return false
+	}
+}
+
+func hangFailure(pat string) failure {
+	return failure{What: fmt.Sprintf("validation of the pattern did not return within %v (the property demands that it terminates)", hangLimit),
+		Key: "hang:" + strconv.Quote(pat), Pattern: strconv.Quote(pat), Items: items(pat), Mode: "ref+path"}
+}
+
 func main() {
 	seed := flag.Uint64("seed", 1, "PRNG seed")
 	n := flag.Int("n", 100000, "number of random patterns")
@@ -556,8 +601,12 @@ func main() {
 			it = f.First.Items
 		}
 		pat := stringOfItems(it)
-		ref, path := implObs(true, pat), implObs(false, pat)
+		var ref, path []dobs
 		fmt.Printf("pattern %q items %v\n", pat, it)
+		if !bounded(hangLimit, func() { ref, path = implObs(true, pat), implObs(false, pat) }) {
+			fmt.Printf("REPLAY: property violated: validation did not return within %v\n", hangLimit)
+			os.Exit(1)
+		}
 		fmt.Printf("impl ref : %s   (documented syntax: valid=%v)\n", obsString(ref), refValid(true, pat))
 		fmt.Printf("impl path: %s   (documented syntax: valid=%v)\n", obsString(path), refValid(false, pat))
 		bad := false
@@ -589,8 +638,43 @@ func main() {
 
 	jobs := make(chan []string, 4**workers)
 	var wg sync.WaitGroup
+	slots := make([]*slot, *workers)
+	for w := range slots {
+		slots[w] = &slot{}
+	}
+	writeHang := func(pat string) {
+		// a validator that does not return cannot be stopped: report and leave
+		f := hangFailure(pat)
+		sum.Evaluations = st.evals
+		sum.Rule = "run stopped: a validation did not terminate"
+		sum.OracleFails = append(sum.OracleFails, f)
+		sum.Extra["oracle_failure_counts"] = map[string]int{"hang": 1}
+		sum.Extra["disagreements"] = []disagreement{}
+		sum.Extra["disagreement_count"] = 0
+		sum.Extra["model_evaluated"] = *modelPath != ""
+		sum.Extra["exhaustive_base"] = map[string]int{}
+		sum.Extra["exhaustive_ext"] = map[string]int{}
+		sum.Extra["class_table"] = classNames
+		for _, n := range []string{"cases.txt", "sources.jsonl", "colcases.txt"} {
+			os.WriteFile(filepath.Join(*out, n), nil, 0o644)
+		}
+		sum.Write(filepath.Join(*out, "summary.json"))
+		os.Exit(0)
+	}
+	go func() {
+		for {
+			time.Sleep(500 * time.Millisecond)
+			for _, sl := range slots {
+				if p, bad := sl.stuck(); bad {
+					st.mu.Lock() // keep the counters still while the summary is written
+					writeHang(p)
+				}
+			}
+		}
+	}()
 	for w := 0; w < *workers; w++ {
 		wg.Add(1)
+		sl := slots[w]
 		go func() {
 			defer wg.Done()
 			var m *model
@@ -627,7 +711,9 @@ func main() {
 					}
 				}
 				for i, p := range batch {
+					sl.enter(p)
 					ref, path := implObs(true, p), implObs(false, p)
+					sl.leave()
 					mr, mp := "-", "-"
 					if m != nil {
 						mr, mp = ans[2*i], ans[2*i+1]
@@ -696,7 +782,12 @@ func main() {
 	srcs.Close()
 
 	// rule_glob.go: position of the diagnostics of Linter.Lint
-	lintFails, colCases, nl := lintCheck(hx.NewRng(*seed+13), *nlint)
+	var lintFails []failure
+	var colCases []string
+	var nl int
+	if !bounded(5*time.Minute, func() { lintFails, colCases, nl = lintCheck(hx.NewRng(*seed+13), *nlint) }) {
+		lintFails = append(lintFails, failure{What: "Linter.Lint on the generated workflows with glob filters did not return (the property demands that validation terminates)", Key: "hang:lint"})
+	}
 	cc, err := os.Create(filepath.Join(*out, "colcases.txt"))
 	hx.Must(err)
 	for _, c := range colCases {
